@@ -25,6 +25,19 @@ check("C13", "model_checking",
       "TLA+ state machine + TLC exhaustive check; spec behaviours replayed into the class; trace validation by TLC",
       "DESIGN 3 C13")
 
+check("C14", "model_checking",
+      "TLC explores spec/ModelObj.tla (every mutator built from one __setitem__ exactly as the code composes them: item/augmented "
+      "assignment incl. zero values and repeated labels, += -= *= **= with dict/model/scalar operands, update, clear, refresh, copy, "
+      "constraint methods, enumerated forms) exhaustively to a depth bound for six pairs of classes covering all ten kinds, with "
+      "UpperBounds / MappingBijection / StoredCanonical / AncCovers as invariants and RefreshExact / AncNeverReused as action "
+      "properties. Every transition of the 2-step graph and long simulated histories are replayed on the real classes with labels "
+      "of mixed hashable types; spec/ModelObjTrace.tla validates each recorded step: stored function pinned, the C14 contract "
+      "evaluated on the implementation's own caches, mapping, reverse mapping, ancilla counter and enumerated forms.",
+      "bounded: <= 3 labels, coefficients in {-1,0,1}, raw keys of length <= 3, histories of <= 4 steps exhaustively and <= 14 steps "
+      "by simulation; trusted: TLC, the projection in harness/modelobj.py",
+      "TLA+ state machine + TLC exhaustive check; spec behaviours replayed into the classes; trace validation by TLC",
+      "DESIGN 3 C14")
+
 
 def build():
     props = [json.loads(l)["id"] for l in open(os.path.join(VERIF, "properties.jsonl"))]
